@@ -2,8 +2,10 @@ package main
 
 import (
 	"context"
+	"encoding/json"
 	"fmt"
 	"sort"
+	"strings"
 
 	segjson "github.com/segmentio/encoding/json"
 	"go.lsp.dev/protocol"
@@ -16,6 +18,18 @@ func init() {
 	register("C01", genC01)
 	replayers["c01.hist"] = func(c *Ctx, m map[string]any) map[string]any {
 		notes, _ := m["notes"].([]any)
+		if wire, _ := m["wire"].(bool); wire {
+			w, err := startWire()
+			if err != nil {
+				panic("wire mode: " + err.Error())
+			}
+			defer w.close()
+			impl, err := runHistWire(w, notes, "replay")
+			if err != nil {
+				panic("wire mode: " + err.Error())
+			}
+			return map[string]any{"notes": notes, "impl": impl, "wire": true}
+		}
 		return map[string]any{"notes": notes, "impl": runHistImpl(notes)}
 	}
 	replayers["c01.apply"] = func(c *Ctx, m map[string]any) map[string]any {
@@ -57,9 +71,10 @@ func u16Case(s string, n int) map[string]any {
 	}}
 }
 
-// runHistImpl feeds a history to a fresh real Server.  Every didChange goes through the
-// JSON decoder the binary uses (go.lsp.dev/protocol types, segmentio json), so that
-// "range absent" and "zero range" meet the server exactly as they do on the wire.
+// runHistImpl feeds a history to a fresh real Server in-process.  Every didChange is decoded
+// from JSON the way cmd/hledger-lsp/main.go's didChangeHandler does (optional range), so that
+// "range absent" and "zero range" meet the server as they do on the wire; op c01.wire runs
+// the same histories against the built binary.
 func runHistImpl(notes []any) []any {
 	srv := server.NewServer()
 	ctx := context.Background()
@@ -96,11 +111,12 @@ func runHistImpl(notes []any) []any {
 			if err != nil {
 				panic(err)
 			}
-			var params protocol.DidChangeTextDocumentParams
-			if err := segjson.Unmarshal(raw, &params); err != nil {
+			// what cmd/hledger-lsp/main.go's didChangeHandler does with the notification
+			var params server.DidChangeRawParams
+			if err := json.Unmarshal(raw, &params); err != nil {
 				panic(fmt.Sprintf("decode didChange: %v", err))
 			}
-			_ = srv.DidChange(ctx, &params)
+			_ = srv.DidChangeRaw(ctx, &params)
 		case "close":
 			_ = srv.DidClose(ctx, &protocol.DidCloseTextDocumentParams{
 				TextDocument: protocol.TextDocumentIdentifier{URI: protocol.DocumentURI(u)}})
@@ -122,6 +138,56 @@ func runHistImpl(notes []any) []any {
 		out = append(out, docs)
 	}
 	return out
+}
+
+// runHistWire sends the history to the built binary over stdio and reads the mirrored text
+// of every URI after every notification with the verif/getDocument hook.
+func runHistWire(w *wireClient, notes []any, prefix string) ([]any, error) {
+	uris := map[string]bool{}
+	var out []any
+	for _, n := range notes {
+		m := n.(map[string]any)
+		u0, _ := m["u"].(string)
+		u := strings.Replace(u0, "file:///w/", "file:///w/"+prefix+"/", 1)
+		uris[u0] = true
+		switch m["k"] {
+		case "open":
+			w.notify("textDocument/didOpen", map[string]any{"textDocument": map[string]any{"uri": u, "languageId": "hledger", "version": 1, "text": m["t"]}})
+		case "change":
+			var changes []map[string]any
+			cs, _ := m["cs"].([]any)
+			for _, c := range cs {
+				cm := c.(map[string]any)
+				ch := map[string]any{"text": cm["t"]}
+				if rr, ok := cm["r"]; ok && rr != nil {
+					r := toIntSlice(rr)
+					ch["range"] = map[string]any{"start": map[string]any{"line": r[0], "character": r[1]}, "end": map[string]any{"line": r[2], "character": r[3]}}
+				}
+				changes = append(changes, ch)
+			}
+			w.notify("textDocument/didChange", map[string]any{"textDocument": map[string]any{"uri": u, "version": 2}, "contentChanges": changes})
+		case "close":
+			w.notify("textDocument/didClose", map[string]any{"textDocument": map[string]any{"uri": u}})
+		}
+		var us []string
+		for k := range uris {
+			us = append(us, k)
+		}
+		sort.Strings(us)
+		docs := []map[string]any{}
+		for _, k := range us {
+			res, err := w.request("verif/getDocument", map[string]any{"uri": strings.Replace(k, "file:///w/", "file:///w/"+prefix+"/", 1)})
+			if err != nil {
+				return nil, err
+			}
+			rm, _ := res.(map[string]any)
+			if open, _ := rm["open"].(bool); open {
+				docs = append(docs, map[string]any{"u": k, "t": rm["text"]})
+			}
+		}
+		out = append(out, docs)
+	}
+	return out, nil
 }
 
 func genChangeFor(c *Ctx, doc string, conforming bool) (map[string]any, string) {
@@ -174,6 +240,7 @@ func genC01(c *Ctx) {
 		c.Emit("c01.apply", map[string]any{"s": doc, "r": rr, "t": t, "impl": implApply(doc, rr, t)})
 	}
 	// histories
+	var wireHists [][]any
 	uris := []string{"file:///w/a.journal", "file:///w/b.journal", "file:///w/c.journal"}
 	for i := 0; i < c.N(1200, 40000); i++ {
 		nu := 1 + r.IntN(3)
@@ -219,5 +286,22 @@ func genC01(c *Ctx) {
 		var norm []any
 		_ = segjson.Unmarshal(raw, &norm)
 		c.Emit("c01.hist", map[string]any{"notes": norm, "impl": runHistImpl(norm)})
+		if i%c.N(8, 8) == 0 {
+			wireHists = append(wireHists, norm)
+		}
+	}
+	// the same histories against the built binary
+	w, err := startWire()
+	if err != nil {
+		panic("wire mode: " + err.Error())
+	}
+	defer w.close()
+	for i, h := range wireHists {
+		impl, err := runHistWire(w, h, fmt.Sprintf("h%d", i))
+		if err != nil {
+			panic("wire mode: " + err.Error())
+		}
+		c.Count("wire.hist")
+		c.Emit("c01.hist", map[string]any{"notes": h, "impl": impl, "wire": true})
 	}
 }
